@@ -658,6 +658,11 @@ class Gen:
             self.feat("guard-over-initial-draw-only")
         elif prof == "guarded" or (self.fin and r.random() < 0.15):
             guard = self.make_guard()
+        if self.fin and guard != ("true",) and r.random() < 0.15:
+            # the whole body under one branch condition: states where the guard holds but the condition does not are stuck,
+            # the loop has NOT terminated there (LoopGuardTransformer collapses first-level ifs)
+            body = [("if", [(self.fin_cond() if r.random() < 0.5 else self.make_guard(), body)], None)]
+            self.feat("body-is-single-if")
         prog = Program(self.typedefs, self.init, guard, body)
         return prog
 
